@@ -9,6 +9,11 @@ CHECKS = {
    note="Trusted: Python/NumPy float primitives as the value of a tree; the rendering of token strings to text; the ideal grammar in spec/SolverIdeal.tla as the reading of the documented step table. Strings in the documented ambiguity band are excluded."),
 }
 ALL = ["C%02d" % i for i in range(1, 21)]
+_d = os.path.join(ROOT, "manifest.d")
+if os.path.isdir(_d):
+    for _f in sorted(os.listdir(_d)):
+        if _f.endswith(".json"):
+            CHECKS[_f[:-5]] = json.load(open(os.path.join(_d, _f)))
 
 def main():
     checks = []
@@ -20,7 +25,7 @@ def main():
             "evidence_file": f"/verif/evidence/{pid}.json",
             "replay_cmd_template": f"./check {pid} --replay {{path}}",
             "engine": "tlc+replay",
-            "level_claimed": {"category": c["level"], "text": c["text"], "design_ref": c["design"]},
+            "level_claimed": {"category": c["level"], "text": c["text"], "design_ref": c.get("design", "5 " + pid)},
             "level_note": c["note"],
             "technique": c["technique"],
         })
